@@ -70,6 +70,10 @@ def run(ctx):
     k, c = replay(ctx, res, "c18refs", "refs")
     counts["reference-graphs"] = k
     drawn += c.get("graphs", 0)
+    res = ctx.tlc("SvgRefs", None, workers=4, cfg_text="CONSTANTS\n  N = 1\n  Kind = \"pair\"\nINIT PairInit\nNEXT Stutter\nINVARIANT EmitPair\nCHECK_DEADLOCK FALSE\n", timeout=600)
+    k, c = replay(ctx, res, "c18pair", "pairs")
+    counts["pairs-of-instances"] = k
+    drawn += 3 * c.get("pairs", 0)
     total = sum(counts.values())
     ctx.traces = total
     return ctx.finish("model_checking", {
